@@ -218,7 +218,9 @@ func (f *fetcher) FetchPrevOutput(op wire.OutPoint) *wire.TxOut {
 }
 
 // runBtcd executes the real engine exactly the way blockchain/scriptval.go does.
-func runBtcd(s *Spend) (ok bool, errStr string, panicked bool) {
+func runBtcd(s *Spend) (ok bool, errStr string, panicked bool) { return runBtcdWith(s, nil) }
+
+func runBtcdWith(s *Spend, sigCache *txscript.SigCache) (ok bool, errStr string, panicked bool) {
 	defer func() {
 		if r := recover(); r != nil {
 			ok, panicked = false, true
@@ -243,7 +245,7 @@ func runBtcd(s *Spend) (ok bool, errStr string, panicked bool) {
 			errStr = "TRANSACTION MUTATED by script verification (outputs/inputs differ after Execute)"
 		}
 	}()
-	vm, err := txscript.NewEngine(po.PkScript, tx, s.Idx, s.Flags, nil, hc, po.Value, f)
+	vm, err := txscript.NewEngine(po.PkScript, tx, s.Idx, s.Flags, sigCache, hc, po.Value, f)
 	if err != nil {
 		return false, err.Error(), false
 	}
